@@ -149,3 +149,34 @@ Definition expected_guards : list (string * list string) := [
     "break & <with self._data_store_session_factory()> & <for batch_item in request_batch> & error_occurred & batch_handling == enums.BatchErrorContinuationOption.STOP";
     "return"])
 ].
+
+(* What every operation handler dispatched by _process_operation can reach, through any chain of helper methods:
+   CryptographyEngine methods, lookups of stored objects (with the policy operation), listings, assignments to
+   `.state`, row deletions (translate/gen_lifecycle.py, reach).  This is the complete list of places where a stored key
+   is used or a State is written; the model covers exactly the handlers with a non-trivial entry here other than the
+   attribute operations (C15) and Locate (C14).  In particular Create / CreateKeyPair use the crypto engine only to
+   generate material and Register reaches nothing: it consults no stored object (Model: `Register t m` ignores the
+   store).  A new path - e.g. Register starting to unwrap with a stored key - breaks GuardTie.reach_as_modelled. *)
+Definition expected_reach : list (string * list string) := [
+  ("_process_activate", ["lookup as enums.Operation.ACTIVATE"; "set state enums.State.ACTIVE"]);
+  ("_process_create", ["crypto create_symmetric_key"]);
+  ("_process_create_key_pair", ["crypto create_asymmetric_key_pair"]);
+  ("_process_decrypt", ["crypto decrypt"; "lookup as enums.Operation.GET"]);
+  ("_process_delete_attribute", ["lookup as enums.Operation.DELETE_ATTRIBUTE"]);
+  ("_process_derive_key", ["crypto derive_key"; "lookup as enums.Operation.GET"]);
+  ("_process_destroy", ["delete row"; "lookup as enums.Operation.DESTROY"; "set state enums.State.DESTROYED_COMPROMISED"]);
+  ("_process_discover_versions", []);
+  ("_process_encrypt", ["crypto encrypt"; "lookup as enums.Operation.GET"]);
+  ("_process_get", ["crypto wrap_key"; "lookup as enums.Operation.GET"]);
+  ("_process_get_attribute_list", ["lookup as enums.Operation.GET_ATTRIBUTE_LIST"]);
+  ("_process_get_attributes", ["lookup as enums.Operation.GET_ATTRIBUTES"]);
+  ("_process_locate", ["list as enums.Operation.LOCATE"]);
+  ("_process_mac", ["crypto mac"; "lookup as enums.Operation.GET"]);
+  ("_process_modify_attribute", ["lookup as enums.Operation.MODIFY_ATTRIBUTE"]);
+  ("_process_query", []);
+  ("_process_register", []);
+  ("_process_revoke", ["lookup as enums.Operation.REVOKE"; "set state enums.State.COMPROMISED"; "set state enums.State.DEACTIVATED"; "set state enums.State.DESTROYED_COMPROMISED"]);
+  ("_process_set_attribute", ["lookup as enums.Operation.SET_ATTRIBUTE"]);
+  ("_process_sign", ["crypto sign"; "lookup as enums.Operation.GET"]);
+  ("_process_signature_verify", ["crypto verify_signature"; "lookup as enums.Operation.GET"])
+].
